@@ -105,3 +105,14 @@ package crypto
 //@   modifies nothing
 //@   ensures [C20:unknown-scheme-id-is-rejected] id != "" && !knownScheme(id) ==> err != nil
 //@   ensures [C20:scheme-id-yields-that-scheme-empty-means-default] err == nil ==> s != nil && knownScheme(s.Name) && (id != "" ==> s.Name == id) && (id == "" ==> s.Name == "pedersen-bls-chained")
+
+// ---- C01: published randomness is the SHA-256 of the signature ------------------------------------------------------------
+//@ extern crypto/sha256.Sum256(data) (a)
+//@   trusted SHA-256 of the content (stdlib)
+//@   modifies nothing
+//@   ensures a == digest(256, data) && len(a) == 32
+
+//@ func RandomnessFromSignature(sig) (r)
+//@   props C01
+//@   modifies nothing
+//@   ensures [C01:randomness-is-the-sha256-of-the-signature] r == digest(256, sig)
